@@ -136,7 +136,14 @@ def monStep (m : MSt) (bl : Block) : MSt × List String :=
       | .frame _ _ => if bl.outs.contains ["ret", "ok"] then [] else ["C12:process-did-not-return-ok", "C13:valid-frame-not-processed"]
       | .bad _ => if bl.outs.contains ["ret", "bad"] then [] else ["C13:bad-frame-not-reported"]
       | _ => []
-    let fails := newFails m.m12.fails m12.fails ++ newFails m.m3.fails m3.fails ++ newFails m.m4.fails m4.fails
+    -- C17 side condition of `Props.C17Spec` (the monitor itself looks at the continuous / test sinks only while a frame
+    -- is processed): no call on those sinks during a reset or a test request, none on the test sink during a bad frame
+    let quiet : Bool := match ev with
+      | .frame _ _ => true
+      | .bad _ => (obsOf .test obs).isEmpty
+      | _ => (obsOf .const obs).isEmpty && (obsOf .test obs).isEmpty
+    let fq := if quiet then [] else ["C17:recorder-call-outside-frame-processing"]
+    let fails := fq ++ newFails m.m12.fails m12.fails ++ newFails m.m3.fails m3.fails ++ newFails m.m4.fails m4.fails
       ++ newFails m.m12s.fails m12s.fails ++ newFails m.m13.fails m13.fails ++ newFails m.m17.fails m17.fails
       ++ retF ++ (if unparsed.isEmpty then [] else ["C12:unparsed-output"])
     let anyFault := obs.any fun o => match o with | .call _ _ false => true | _ => false
